@@ -8,6 +8,9 @@ package main
 FINDINGS — C20 on the unchanged repository
 =====================================================================================================
 
+STATUS: F1 was fixed in /repo by commit 8608b2c ("a zero-length message taken off a channel's send queue is not
+forgotten", the suggested fix) and is listed as "fixed" in KNOWN_FINDINGS.jsonl; the unchanged tree now exits 0.
+
 F1 (genuine, low practical severity): a zero-length message accepted by Send/TrySend is silently lost
 (and the channel's sendQueueSize leaks) when another channel wins the packet selection.
 
@@ -111,14 +114,45 @@ Signatures are C20|input-class=<class>|oracle=<oracle>.
 | c20-frame-length-not-validated                 | Read: `chunkLength > dataMaxSize` test removed                             | pass                                          | yes, exit 1 (2)  | evil:authenticated-peer-sends-bad-frame-length / bytes-never-written-delivered; same / panic |
 | c20-readfull-replaced-by-read                  | Read: io.ReadFull(sc.conn, ..) -> sc.conn.Read(..)                         | FAIL (TestMakeSecretConnection)               | yes, exit 1 (1)  | chunking:transport-short-reads / read-error-on-clean-stream:decrypt (mitm truncations additionally give irreproducible stale-buffer effects, counted in irreproducible_findings_not_reported, never reported) |
 | c20-recvbuffer-drops-single-leftover-byte      | Read: leftover kept only if more than one byte remains                     | pass                                          | yes, exit 1 (1)  | chunking / read-error-on-clean-stream:stall (a byte is missing) |
-| c20-eof-flag-off-by-one                        | nextPacketMsg: `len(sending) <= maxSize` -> `<`                            | pass                                          | yes, exit 1 (4)  | mconn:send:size={maxPayload,3*maxPayload,capacity} / packetisation |
+| c20-eof-flag-off-by-one                        | nextPacketMsg: `len(sending) <= maxSize` -> `<= maxSize+1` (last byte of a maxSize+1 tail dropped; the earlier `<` variant became equivalent after the F1 fix: it only adds an empty EOF packet) | pass | yes, exit 1 (2)  | mconn:send:size={maxPayload+1,capacity+1} / packetisation |
 | c20-unknown-channel-ignored                    | recvRoutine: unknown channel -> continue instead of stopForError           | FAIL (TestMConnectionReadErrorUnknownChannel) | yes, exit 1 (2)  | mconn:recv:unknown-channel / unknown-channel-not-refused; mconn:recv:extra-message / exactly-once-intact-in-order |
 | c20-transport-dialed-id-not-compared           | upgrade: dialled-id comparison disabled                                    | pass                                          | yes, exit 1 (1)  | transport:dial=other,reported-id=auth,key=other,nodeinfo=ok/ok / inconsistent-peer-accepted |
 | c20-transport-nodeinfo-id-not-compared         | upgrade: conn.ID vs NodeInfo.ID comparison disabled                        | FAIL (TestTransportMultiplexRejectMissmatchID)| yes, exit 1 (10) | transport:..reported-id=third.. / inconsistent-peer-accepted, wrong-remote-key; transport-reflection:..nodeinfo=own-id / authenticated-without-private-key |
 | c20-transport-self-not-rejected                | upgrade: "reject self" disabled                                            | FAIL (TestSwitchFiltersOutItself, TestTransportMultiplexRejectSelf) | yes, exit 1 (4) | transport:..key=self.. / inconsistent-peer-accepted; transport-reflection:..nodeinfo=reflected / authenticated-without-private-key |
+| c20-seeded-write-lock-narrowed (seeded C20)    | Write: sendMtx held only around Seal+incrNonce, conn.Write after Unlock     | pass (also silent under -race)                | yes, exit 1 (1), same signature and same first counterexample in 2 runs | two-writers:controlled-interleaving / read-error-on-clean-stream:decrypt (smallest: writes [[1],[1,1025]], choices [1,1,0], frames reach the wire in writer order 0111); the free-running phase also sees it (write-calls-not-atomic / decrypt) but not reproducibly: counted in irreproducible_findings_not_reported and printed as a note, never the verdict |
 | c20-race-write-without-send-mutex              | SecretConnection.Write: sendMtx not taken                                  | pass                                          | quick: not applicable (cooperative); RACE PASS: yes, exit 66, 10-13 data-race reports | (VERIF_RACE=1 C20_RACE_PASS=1) |
 
-The race pass (premise "a whole Write call is atomic" for the enumerated merges):
+Controlled two-writer interleavings (interleave.go; the premise "a whole Write call is atomic" of the merge
+phase as an explored fact, deterministic and replayable):
+    two real writer goroutines on ONE real handshaken SecretConnection; a gate before every Write call (writer
+    body) and a gate inside the checker's pipe at the start of every underlying conn.Write the SecretConnection
+    issues (sealed frame in hand; in the unchanged code sendMtx is held there). Scheduling points = quiescent
+    states: every writer finished, parked at a gate (checker bookkeeping) or blocked inside the code under
+    test. The last is read off the scheduler state of the writer's goroutine: its id is recorded at start
+    (runtime.Stack of itself), then runtime.Stack(buf,true) - a stop-the-world snapshot - is polled with
+    Gosched in between until every writer that is "running" by the bookkeeping shows a waiting state
+    (sync.Mutex.Lock, semacquire, RWMutex, Cond, WaitGroup, channel ops) whose blocking primitive was invoked
+    DIRECTLY by a function of the repository (a wait inside sync.Pool's global lock or inside the checker does
+    not count), at a moment when all other writers are parked/finished (so nobody can wake it). No sleep or
+    timeout decides anything. Choices via verif/mc/explore (Ctx.Choose, Explorer{Bound}): default = keep
+    running the writer that ran last; switching away from a writer that could continue costs 1 (preemption);
+    when it cannot continue the move is free. With the unchanged code a writer started while the other is
+    parked inside Write blocks on sendMtx, the only enabled move is the holder: every execution is a function
+    of the choices. Replay file = {writes, dir, choices}; a schedule that cannot be executed on other code
+    (different enabled sets) is reported as such by --replay and does not count as "still violates".
+    The snapshot stops the world: with 16 Ps on the shared machine it cost ~9 ms (worldsema queueing), with
+    one P ~50 us, so the phase runs under GOMAXPROCS(1) with one worker (8x faster overall).
+    Scope quick: all unordered pairs of size lists of <=2 calls over {1,1024,1025,2048(2 frames),3000(3 frames)}
+    plus all 3-call lists over {1,3000}, at least one multi-frame Write per scenario, direction alternating,
+    all schedules with <=2 preemptions: 525 scenarios, 14 702 executions, 106 267 binary choice points, 35 701
+    quiescent points with a writer blocked on the mutex (one snapshot each), 820 distinct wire orders, 62
+    distinct payload orders, every scenario shows >1 payload order, 11 608 executions start a writer while
+    the other is parked inside Write; 3.5-4 s.
+    Scope thorough: lists of <=2 calls with <=3 preemptions in both directions; lists of <=3 calls with <=5 calls
+    in total (3+3 calls over {1,3000}) with <=2 preemptions: 5 069 scenario jobs, ~49 s.
+    After 300 violating executions the phase stops (each costs a new handshake; smallest schedules first).
+
+The race pass (the same premise under the race detector, for races that are not at these scheduling points):
     VERIF_RACE=1 VERIF_NOEVIDENCE=1 C20_RACE_PASS=1 /verif/run.sh C20 quick
 runs only the free-running scenario (300 iterations; two real writer goroutines + one reader per side on
 real SecretConnection pairs) in a `go build -race` binary: unchanged tree exit 0 in ~1 s; with
